@@ -49,4 +49,18 @@ func init() {
 			c.guard("lineio/eofdata", func() { ruleDataOnEOF(c, "lineio/eofdata", seqs...) })
 		},
 	})
+	register(&propDef{
+		ID: "C01",
+		Explanation: "TODO",
+		Run: func(c *Ctx) {
+			c.guard("bytecount", func() { ruleByteCount(c, "bytecount", "io/seqio/fasta", "io/seqio/fastq"); c.floor("bytecount", 14) })
+		},
+	})
+	register(&propDef{
+		ID: "C02",
+		Explanation: "TODO",
+		Run: func(c *Ctx) {
+			c.guard("bytecount", func() { ruleByteCount(c, "bytecount", "io/featio/bed", "io/featio/gff"); c.floor("bytecount", 28) })
+		},
+	})
 }
